@@ -1062,6 +1062,11 @@ def suites_c11(tier, seed):
     for k in range(4 if tier == "quick" else 60):
         steps = base_store(rng, rng.randint(15, 30))
         fs = [gen_filter(rng, steps, [None]) for _ in range(12)]
+        # long tag values: an index that shortens them must not make values with a common head match one another
+        for ln in (256, 300, 1100):
+            longv = "L" * (ln - 3) + "%03d" % k
+            steps.append(step_add(ev(k % 3, 1, 40 + (ln % 7), [["t", longv]], content="long%d-%d" % (ln, k))))
+            fs.append({"#t": [longv]})
         nb = []
         for i, f in enumerate(fs):
             nb += neighbours_for(f, i)
